@@ -28,7 +28,7 @@ struct Y1(u8);
 #[derive(Event, Serialize, Deserialize, Clone)]
 struct Y2(u8);
 
-const ITEMS: usize = 14;
+const ITEMS: usize = 15;
 const NAMES: [&str; ITEMS] = [
     "replicate<A>",
     "replicate<A> priority 2",
@@ -44,6 +44,7 @@ const NAMES: [&str; ITEMS] = [
     "independent_event<Y1>",
     "independent_trigger<Y1>",
     "replicate<A> priority 2^32+2",
+    "replicate_bundle<(B,A)>",
 ];
 
 fn apply(app: &mut App, item: usize) {
@@ -86,6 +87,10 @@ fn apply(app: &mut App, item: usize) {
         }
         12 => {
             app.make_trigger_independent::<Y1>();
+        }
+        14 => {
+            // the same position and kind as item 3, another bundle type
+            app.replicate_bundle::<(HB, HA)>();
         }
         13 => {
             // equal to item 1 modulo 2^32
